@@ -2,6 +2,7 @@ import RsslVerif.Lemmas.SlotsInline
 import RsslVerif.Lemmas.FixpointStmt
 import RsslVerif.Gen.FixpointTables
 import RsslVerif.Lemmas.FixpointText
+import RsslVerif.Lemmas.FixpointSlots
 import RsslVerif.Thm.C09
 /-!
 # C04 — emitted DirectX HLSL is accepted by the front end and is a fixpoint
@@ -52,6 +53,61 @@ example : assign paramsDefault 0 ([Decl.cbuffer none, .global (some 1) false (so
       .global none false (some .SamplerState) none].map (explicit 2)) =
     assign paramsDefault 2 [Decl.cbuffer none, .global (some 1) false (some .Texture2D) (some 2),
       .global none false (some .SamplerState) none] := slots_stable _ _ _ _
+
+/-! ## Slots as re-read from the printed annotations -/
+section Reread
+open RsslVerif.Gen.MetaTables RsslVerif.Model.Meta RsslVerif.Spec.Meta RsslVerif.Model.FixpointSlots
+open RsslVerif.Lemmas.FixpointSlots
+
+/-- the DirectX target allocates with register types and without buffer addresses, whatever `support_buffer_address`
+    says (re-extracted `binding_params` of `compile()`) -/
+theorem dx_params (sba : Bool) : DxParams (paramsFor .HlslForDirectX sba) := by
+  cases sba <;> exact ⟨rfl, rfl⟩
+
+/-- **Every resource keeps its slot when the emitted text is compiled again.**  First generation: `assign` over the
+    declarations `ds` (default group `dflt` of the selected pipeline) gives `res`.  The exporter prints
+    ` : register(<letter><index>[, space<group>])` for every bound declaration; the second generation sees each
+    declaration with the bind group that C05's character-level reader reads from that printed text (`secondDecls`:
+    print, then read back, then "space 0 / no space = no explicit group") and runs without a pipeline (default group 0).
+    It computes exactly `res` again: the same group, index and register class for every declaration and the same
+    inline constant blocks. -/
+theorem slots_stable_reread {p : Params} (hp : DxParams p) (dflt : Nat) (ds : List Decl) (res : Result)
+    (h : assign p dflt ds = .ok res) : assign p 0 (secondDecls ds res.bindings) = .ok res := by
+  simp only [assign] at h ⊢
+  split at h
+  · simp at h
+  · rename_i st bs hrun
+    simp at h; subst h
+    simp only [run_second hp dflt ds State.init st bs hrun]
+
+/-- …and therefore prints the same annotations again -/
+theorem annotations_stable {p : Params} (hp : DxParams p) (dflt : Nat) (ds : List Decl) (res res2 : Result)
+    (h : assign p dflt ds = .ok res) (h2 : assign p 0 (secondDecls ds res.bindings) = .ok res2) :
+    res2.bindings.map regAnnot = res.bindings.map regAnnot := by
+  rw [slots_stable_reread hp dflt ds res h] at h2
+  cases h2; rfl
+
+/-- what is read back from a printed annotation is the group of the binding it was printed for -/
+theorem reread_names_group (r : RegT) (i g : Nat) : (rereadSet (Annot.reg r i g).print).getD 0 = g :=
+  rereadSet_reg r i g
+
+/-! Non-vacuity: a cbuffer in the pipeline's default group 2, a texture array with an explicit group, a sampler -/
+def dsEx : List Decl :=
+  [Decl.cbuffer none, .global (some 1) false (some .Texture2D) (some 2), .global none false (some .SamplerState) none]
+
+example :
+    (match assign paramsDefault 2 dsEx with
+     | .ok res =>
+       decide (res.bindings.map (fun b => b.map (·.set)) = [some 2, some 1, some 2]) &&
+       decide (secondDecls dsEx res.bindings =
+         [Decl.cbuffer (some 2), .global (some 1) false (some .Texture2D) (some 2),
+          .global (some 2) false (some .SamplerState) none]) &&
+       (match assign paramsDefault 0 (secondDecls dsEx res.bindings) with
+        | .ok res2 => decide (res2 = res)
+        | .error _ => false)
+     | .error _ => false) = true := by decide
+
+end Reread
 
 /-! ## Re-elaboration of the exported program adds no conversion (type level, C03 model × exporter shadow)
 
